@@ -305,7 +305,12 @@ func runC08(c *Ctx) {
 		popts = append(popts, zap.AddCaller())
 	}
 	w.probeLg = zap.New(zapcore.NewCore(mkEnc(console), zapcore.Lock(w.probeSk), zapcore.DebugLevel), popts...)
-	switch g.Draw(4) {
+	switch g.Draw(5) {
+	case 4:
+		// a stored context larger than a pooled buffer's initial kilobyte: it is
+		// copied into every line in one piece
+		w.probeLg = w.probeLg.With(zap.String("bigctx", strings.Repeat("c", pick(g, 1000, 1023, 1024, 1025, 1500, 4000))), zap.Int("after", 1))
+		c.R.Probe("probe logger with a context of about 1-4 KiB")
 	case 1:
 		w.probeLg = w.probeLg.With(zap.Int("ctx", 1), zap.String("who", "probe"))
 	case 2:
